@@ -38,12 +38,15 @@ Proof. intro d. unfold pwrite. simpl. rewrite skipn_nil. apply app_nil_r. Qed.
 Lemma nth_zeros : forall n i, nth i (zeros n) 0%N = 0%N.
 Proof. intros n i. unfold zeros. destruct (Nat.lt_ge_cases i n); [apply nth_repeat | apply nth_overflow; rewrite repeat_length; lia]. Qed.
 
+Lemma filter_len_le : forall {A} (p : A -> bool) l, length (filter p l) <= length l.
+Proof. intros A p l. induction l as [|x l IH]; simpl; [lia|]. destruct (p x); simpl; lia. Qed.
+
 Lemma count_true_all : forall l, count_true l = length l -> forall i, i < length l -> nth i l false = true.
 Proof.
   unfold count_true. induction l as [|x l IH]; intros H i Hi; simpl in *; [lia|].
   destruct x; simpl in H.
   - destruct i; [reflexivity|]. apply IH; lia.
-  - pose proof (filter_length_le (fun b : bool => b) l). lia.
+  - pose proof (filter_len_le (fun b : bool => b) l). lia.
 Qed.
 
 Lemma count_true_repeat : forall n, count_true (repeat true n) = n.
@@ -53,9 +56,12 @@ Lemma deser_nth : forall b i, nth i (deser_status b) false = N.eqb (nth i b 0%N)
 Proof.
   intros b i. unfold deser_status.
   destruct (Nat.lt_ge_cases i (length b)).
-  - rewrite (nth_indep _ false (N.eqb 0 1)) by (rewrite map_length; lia). apply map_nth.
+  - rewrite (nth_indep _ false ((fun x : N => N.eqb x 1) 0%N)) by (rewrite map_length; lia).
+    apply (map_nth (fun x : N => N.eqb x 1)).
   - rewrite !nth_overflow by (rewrite ?map_length; lia). reflexivity.
 Qed.
+
+Ltac red_tr := cbn [all_DI app apply_calls fold_left andb].
 
 (* ---- the invariant, unfolded ---- *)
 Section Inv.
@@ -114,7 +120,7 @@ Section Inv.
     assert (i <> j) by (intro; subst; contradiction).
     specialize (M j Hj E). rewrite <- M.
     pose proof (region_blob_length c Hpl j Hj) as L. rewrite <- M in L.
-    destruct (region_full_length c d j L) as [F|F]; [|destruct (poff_plen_bound c Hpl j Hj); lia].
+    destruct (region_full_length c Hpl d j L) as [F|F]; [|destruct (poff_plen_bound c Hpl j Hj); lia].
     apply (region_pwrite_other c Hpl d off x i j); assumption.
   Qed.
 
@@ -165,67 +171,75 @@ Section Inv.
           destruct (d_status (dl s)) as [b|]; [|reflexivity]. simpl. apply H2; reflexivity.
   Qed.
 
-  (* ---- initialising / resetting the status vector: compareAndWriteFile of n zero bytes ---- *)
-  Lemma caw_status_zeros : forall s d, DIb c s = true -> d_data (dl s) = Some d ->
-    let cs := caw_calls s ADl FStatus (zeros (npieces c)) in
-    all_DI c s cs = true /\
-    core (apply_calls s cs) = (Some d, Some (zeros (npieces c)), d_data (ca s)).
+  (* ---- what the invariant gives at the two points where the agent decides ---- *)
+
+  (* "serves": a cache file on a disk satisfying the invariant is the blob *)
+  Lemma cache_is_blob : forall s d, DIb c s = true -> d_data (ca s) = Some d -> d = c_blob c.
+  Proof. intros s d D E. apply DIb_spec in D. destruct D as [D _]. apply D. exact E. Qed.
+
+  (* "reports complete": NewTorrent (torrent.go:68) commits when every entry of the restored status
+     vector is complete; with the length check of the fix the vector has one entry per piece, and
+     then the download file it renames into the cache is the blob *)
+  Lemma commit_only_blob : forall s d b,
+    DIb c s = true -> d_data (dl s) = Some d -> d_status (dl s) = Some b ->
+    length b = npieces c ->
+    count_true (deser_status b) = length (deser_status b) ->
+    d = c_blob c.
   Proof.
-    intros s d D Ed. pose proof D as D0. rewrite DIb_spec in D. destruct D as [Dc Dd]. rewrite Ed in Dd.
-    destruct Dd as [Ld Ds].
-    assert (DIset : forall s' b', core s' = (Some d, Some b', d_data (ca s)) -> status_ok c d b' = true -> DIb c s' = true).
-    { intros s' b' Co Sb. unfold core in Co. inversion Co as [[C1 C2 C3]]. apply DIb_spec. split.
-      - rewrite C3. exact Dc.
-      - rewrite C1. split; [exact Ld|]. intros b E. rewrite C2 in E. inversion E; subst. exact Sb. }
-    unfold caw_calls. cbv zeta. unfold file_at. simpl get_dir. simpl get_file.
-    destruct (d_status (dl s)) as [cur|] eqn:Es.
-    - destruct (bytes_eqb cur (zeros (npieces c))) eqn:Eq.
-      + apply bytes_eqb_eq in Eq. subst cur. simpl. rewrite D0. split; [reflexivity|].
-        unfold core. rewrite Ed, Es. reflexivity.
-      + apply bytes_eqb_neq in Eq.
-        pose proof (Ds cur eq_refl) as Sc. unfold status_ok in Sc. apply andb_true_iff in Sc. destruct Sc as [Sh _].
-        apply shape_ok_spec in Sh.
-        assert (Lz : length (zeros (npieces c)) = npieces c) by (unfold zeros; apply repeat_length).
-        rewrite Lz.
-        destruct (length cur =? npieces c) eqn:El.
-        * apply Nat.eqb_eq in El. simpl app. unfold wr_calls.
-          destruct (zeros (npieces c)) as [|z zs] eqn:Z.
-          { (* n = 0 *) destruct cur; [contradiction Eq; reflexivity|]. simpl in El. rewrite <- Lz in El. discriminate El. }
-          rewrite <- Z.
-          assert (Co : core (apply_call s (CWrite ADl FStatus 0 (zeros (npieces c)))) = (Some d, Some (zeros (npieces c)), d_data (ca s))).
-          { destruct s as [d1 d2]. unfold core. simpl in *. rewrite Ed, Es. simpl. rewrite pwrite_full by lia. reflexivity. }
-          simpl. rewrite D0. rewrite (DIset _ _ Co (status_ok_zeros d)). split; [reflexivity|]. exact Co.
-        * apply Nat.eqb_neq in El. destruct Sh as [Sh|Sh]; [|contradiction]. subst cur.
-          assert (Co1 : core (apply_call s (CTrunc ADl FStatus (npieces c))) = (Some d, Some (zeros (npieces c)), d_data (ca s))).
-          { destruct s as [d1 d2]. unfold core. simpl in *. rewrite Ed, Es. simpl. rewrite truncate_nil. reflexivity. }
-          unfold wr_calls. destruct (zeros (npieces c)) as [|z zs] eqn:Z.
-          { simpl in Lz. simpl in El. lia. }
-          rewrite <- Z. simpl.
-          rewrite D0. rewrite (DIset _ _ Co1 (status_ok_zeros d)). simpl.
-          assert (Co2 : core (apply_call (apply_call s (CTrunc ADl FStatus (npieces c))) (CWrite ADl FStatus 0 (zeros (npieces c))))
-                        = (Some d, Some (zeros (npieces c)), d_data (ca s))).
-          { unfold core in Co1. inversion Co1 as [[C1 C2 C3]].
-            destruct (apply_call s (CTrunc ADl FStatus (npieces c))) as [e1 e2]. unfold core. simpl in *.
-            rewrite C1, C2. simpl. rewrite pwrite_full by (rewrite Lz; reflexivity). rewrite C3. reflexivity. }
-          rewrite (DIset _ _ Co2 (status_ok_zeros d)). split; [reflexivity | exact Co2].
-    - (* absent: mkdirs, create, write *)
-      rewrite all_DI_app.
-      rewrite (benign_calls_DI c _ s (mkdirs_benign s ADl) D0). simpl andb.
-      set (s1 := apply_calls s (mkdirs_calls s ADl)).
-      assert (Co0 : core s1 = core s) by (apply benign_calls_core; apply mkdirs_benign).
-      unfold core in Co0. inversion Co0 as [[C1 C2 C3]]. rewrite Ed in C1. rewrite Es in C2.
-      rewrite apply_calls_app. fold s1.
-      assert (Co1 : core (apply_call s1 (COpen ADl FStatus)) = (Some d, Some [], d_data (ca s))).
-      { destruct s1 as [e1 e2]. unfold core. simpl in *. rewrite C1, C3. reflexivity. }
-      assert (D1 : DIb c s1 = true) by (rewrite (DIb_core c s1 s Co0); exact D0).
-      unfold wr_calls. destruct (zeros (npieces c)) as [|z zs] eqn:Z.
-      + simpl. rewrite D1. rewrite (DIset _ _ Co1 (status_ok_nil d)). split; [reflexivity | exact Co1].
-      + rewrite <- Z. simpl. rewrite D1. rewrite (DIset _ _ Co1 (status_ok_nil d)). simpl.
-        assert (Co2 : core (apply_call (apply_call s1 (COpen ADl FStatus)) (CWrite ADl FStatus 0 (zeros (npieces c))))
-                      = (Some d, Some (zeros (npieces c)), d_data (ca s))).
-        { unfold core in Co1. inversion Co1 as [[E1 E2 E3]].
-          destruct (apply_call s1 (COpen ADl FStatus)) as [e1 e2]. unfold core. simpl in *.
-          rewrite E1, E2. simpl. rewrite pwrite_nil_zero. rewrite E3. reflexivity. }
-        rewrite (DIset _ _ Co2 (status_ok_zeros d)). split; [reflexivity | exact Co2].
+    intros s d b D Ed Eb L A. apply DIb_spec in D. destruct D as [_ D]. rewrite Ed in D. destruct D as [Ld S].
+    apply (all_marks_blob d b (S b Eb) L Ld).
+    intros i Hi. pose proof (count_true_all _ A i) as T.
+    unfold deser_status in T at 1. rewrite map_length in T. specialize (T ltac:(lia)).
+    rewrite deser_nth in T. apply N.eqb_eq in T. exact T.
+  Qed.
+
+  (* the pieces a recovered torrent would serve: marked on disk => the blob's bytes *)
+  Lemma marked_piece_is_blob : forall s d b i,
+    DIb c s = true -> d_data (dl s) = Some d -> d_status (dl s) = Some b ->
+    i < npieces c -> nth i (deser_status b) false = true ->
+    region c d i = region c (c_blob c) i.
+  Proof.
+    intros s d b i D Ed Eb Hi T. apply DIb_spec in D. destruct D as [_ D]. rewrite Ed in D. destruct D as [_ S].
+    specialize (S b Eb). unfold status_ok in S. apply andb_true_iff in S. destruct S as [_ M].
+    rewrite marks_ok_spec in M. apply M; [exact Hi|]. rewrite deser_nth in T. apply N.eqb_eq in T. exact T.
+  Qed.
+
+  (* one data write inside a piece the status vector does not mark keeps the invariant
+     (status byte is written only after the data: torrent.go:189 before :196) *)
+  Lemma data_write_keeps_DI : forall s d b off x i,
+    DIb c s = true -> d_data (dl s) = Some d -> d_status (dl s) = Some b ->
+    i < npieces c -> nth i b 0%N <> 1%N ->
+    poff c i <= off -> off + length x <= poff c i + plen c i ->
+    DIb c (apply_call s (CWrite ADl FData off x)) = true.
+  Proof.
+    intros s d b off x i D Ed Eb Hi Hn H1 H2. pose proof D as D0. apply DIb_spec in D. destruct D as [Dc D].
+    rewrite Ed in D. destruct D as [Ld S].
+    destruct (poff_plen_bound c Hpl i Hi) as [_ [B _]].
+    apply DIb_spec. destruct s as [d1 d2]. simpl in *. rewrite Ed. simpl. split; [exact Dc|].
+    split.
+    - rewrite length_pwrite. lia.
+    - intros b' E. rewrite Eb in E. inversion E; subst b'.
+      apply (status_ok_data_write d b off x i); auto.
+  Qed.
+
+  (* marking piece i once its bytes are the blob's keeps the invariant *)
+  Lemma mark_keeps_DI : forall s d b i,
+    DIb c s = true -> d_data (dl s) = Some d -> d_status (dl s) = Some b ->
+    length b = npieces c -> i < npieces c -> region c d i = region c (c_blob c) i ->
+    DIb c (apply_call s (CWrite ADl FStatus i [1%N])) = true.
+  Proof.
+    intros s d b i D Ed Eb L Hi R. apply DIb_spec in D. destruct D as [Dc D].
+    rewrite Ed in D. destruct D as [Ld S].
+    apply DIb_spec. destruct s as [d1 d2]. simpl in *. rewrite Eb. simpl. rewrite Ed. split; [exact Dc|].
+    split; [exact Ld|]. intros b' E. inversion E; subst b'.
+    rewrite pwrite_one by lia. apply status_ok_mark; auto.
+  Qed.
+
+  (* the commit point: renaming a download file that is the blob keeps the invariant *)
+  Lemma rename_keeps_DI : forall s,
+    DIb c s = true -> d_data (dl s) = Some (c_blob c) -> DIb c (apply_call s CRename) = true.
+  Proof.
+    intros s D Ed. apply DIb_spec. destruct s as [d1 d2]. simpl in *. rewrite Ed. simpl.
+    split; [intros d E; inversion E; reflexivity | intro E; discriminate E].
   Qed.
 End Inv.
